@@ -89,14 +89,19 @@ def handler_facts(tree):
     need(len(catch) == 1, "handleRequest: outer handler catches a tuple")
     var = h.name
     ifs = [n for n in h.body if isinstance(n, ast.If)]
-    need(len(ifs) == 3, "handleRequest: outer handler: expected three if statements, found %d" % len(ifs))
+    need(len(ifs) in (2, 3), "handleRequest: outer handler: expected two or three if statements, found %d" % len(ifs))
     # if msg: ... (pyroMsg) ; if not isinstance(xv, CCE): if not oneway: if isinstance(xv, SE) or not isinstance(xv, CE): send
     t = ifs[1].test
     need(isinstance(t, ast.UnaryOp) and isinstance(t.op, ast.Not), "handleRequest: reply guard is not `if not isinstance(...)`")
     noreply = isinstance_test(t.operand, var)
-    need(noreply is not None and not ifs[1].orelse and len(ifs[1].body) == 1 and isinstance(ifs[1].body[0], ast.If),
+    gbody = [n for n in ifs[1].body if not isinstance(n, ast.Pass)]
+    need(noreply is not None and not ifs[1].orelse and len(gbody) in (1, 2) and all(isinstance(n, ast.If) for n in gbody),
          "handleRequest: reply guard has an unexpected shape")
-    ow = ifs[1].body[0]
+    # the re-raise statement: at handler level (after the guard) or inside the guard's block
+    need((len(ifs) == 3) != (len(gbody) == 2), "handleRequest: the re-raise statement is not found exactly once")
+    reraise_guarded = len(gbody) == 2
+    rr_node = gbody[1] if reraise_guarded else ifs[2]
+    ow = gbody[0]
     need(isinstance(ow.test, ast.UnaryOp) and isinstance(ow.test.op, ast.Not) and "FLAGS_ONEWAY" in ast.dump(ow.test)
          and not ow.orelse and len(ow.body) == 1 and isinstance(ow.body[0], ast.If), "handleRequest: oneway guard has an unexpected shape")
     cond = ow.body[0]
@@ -117,7 +122,7 @@ def handler_facts(tree):
                 and isinstance(s.value, ast.Call) and attr_name(s.value.func) == "format_traceback"]
     need(len(tbassign) == 1, "handleRequest: traceback lines are not produced by errors.format_traceback")
     # re-raise
-    rr = ifs[2]
+    rr = rr_node
     need(isinstance(rr.test, ast.BoolOp) and isinstance(rr.test.op, ast.Or) and len(rr.test.values) == 2
          and isinstance(rr.test.values[0], ast.Name) and rr.test.values[0].id == "isCallback"
          and len(rr.body) == 1 and isinstance(rr.body[0], ast.Raise) and rr.body[0].exc is None and not rr.orelse,
@@ -167,7 +172,7 @@ def handler_facts(tree):
         redump = any(isinstance(c, ast.Call) and isinstance(c.func, ast.Attribute) and c.func.attr == "dumps" for st in hh.body for c in ast.walk(st))
         need(redump, "_sendExceptionResponse: fallback does not serialise the replacement")
         fb_present = True
-    return {"catch": catch[0], "noreply": noreply, "reply_if": reply_if, "reply_unless": reply_unless, "reraise": reraise,
+    return {"catch": catch[0], "reraise_guarded": reraise_guarded, "noreply": noreply, "reply_if": reply_if, "reply_unless": reply_unless, "reraise": reraise,
             "batch_catch": bcatch[0], "batch_tb": b_tb, "batch_break": b_break, "send_sets_tb": first_tb,
             "fb_present": fb_present, "fb_catch": fb_catch, "fb_class": fb_class, "fb_tb": fb_tb,
             "sha": {"handleRequest": ast_sha(f), "_sendExceptionResponse": ast_sha(s)}}
@@ -315,6 +320,7 @@ def gen_excs(tree):
     out += "  f_reply_if := %s;\n" % clist([T(k) for k in hf["reply_if"]])
     out += "  f_reply_unless := %s;\n" % clist([T(k) for k in hf["reply_unless"]])
     out += "  f_reraise := %s;\n" % clist([T(k) for k in hf["reraise"]])
+    out += "  f_reraise_guarded := %s;\n" % cbool(hf["reraise_guarded"])
     out += "  f_batch_catch := %s;\n" % T(hf["batch_catch"])
     out += "  f_batch_tb := %s;\n" % cbool(hf["batch_tb"])
     out += "  f_send_sets_tb := %s;\n" % cbool(hf["send_sets_tb"])
